@@ -208,3 +208,24 @@ CHECKS["C12"] = {
         {"name": "assembly", "run": "^TestC12Assembly$", "kind": "rapid", "checks": {"quick": 4000, "thorough": 80000}, "shards": {"quick": 4, "thorough": 16}},
     ],
 }
+
+CHECKS["C20"] = {
+    "pkg": "props/c20",
+    "level": "exploration",
+    "rule": "typed: rapid-generated typed expression trees (Num: literals incl. negatives/fractions, numeric fields of kinds int64/float64/uint8/int32/int, len(), + - * / %, unary minus; Str: literals with escaped quotes, string fields, concatenation; Bool: literals, bool field, !, numeric/string/bool comparisons, && ||, regexp(), in()) of depth <= 4 (thorough <= 6), "
+            "each printed three ways (minimal parentheses relying on precedence and left associativity, fully parenthesised, randomly redundant) with random spacing, compiled afresh as the vd tag of a reflect.StructOf type, evaluated on generated field values. Non-trivial = minimal printing differs from full printing and the tree has >= 2 precedence levels; distinct by FNV-64 of (minimal printing, values). "
+            "wild-nopanic: untyped operator soups over the property's alphabet (literals, nil, field refs to nil pointers/slices/maps/interfaces, element access, len/regexp/in) checked for panics only.",
+    "assumptions": [
+        "division or remainder by zero (or a divisor truncating to zero, or operands beyond 2^62 for %) is classified undefined-arith: only 'no panic' and 'all three printings agree' are required there",
+        "only well-typed expressions are compared with the evaluator; registered functions other than len/regexp/in are outside the statement",
+    ],
+    "level_text": "Random exploration against an independent float64 evaluator over the expression TREE (documented precedence, left associativity, % as float64(int64(a)%int64(b))) plus the metamorphic relation 'parenthesisation implied by precedence == explicit parentheses'; panics are caught around binding.Validate.",
+    "level_note": "Trusts the 100-line evaluator and the printer; sampled, not exhaustive.",
+    "technique": "property-based testing (rapid) with a reference evaluator and a metamorphic re-parenthesisation relation",
+    "nontrivial_floor": 500,
+    "units": [
+        {"name": "regress", "run": "^TestC20Regress$", "kind": "plain"},
+        {"name": "typed", "run": "^TestC20Typed$", "kind": "rapid", "checks": {"quick": 8000, "thorough": 240000}, "shards": {"quick": 8, "thorough": 16}},
+        {"name": "wild-nopanic", "run": "^TestC20Wild$", "kind": "rapid", "checks": {"quick": 6000, "thorough": 160000}, "shards": {"quick": 4, "thorough": 16}},
+    ],
+}
